@@ -42,11 +42,13 @@ def lemma_ident(rep, F, L):
     stmts = body.get("stmts", [])
     # locate the scan loop, the parse call and the final Ok(Detection{..})
     loop_i = parse_i = solv_i = None
+    pcalls = [x for x in walk(body) if call_is(x, "parser::parse")]
+    tokens_id = q.base_var(pcalls[0]["args"][0]) if len(pcalls) == 1 else None
     for i, s in enumerate(stmts):
         e = s["e"] if s["k"] == "Expr" else s.get("init")
         if e is None:
             continue
-        if s["k"] == "Expr" and unblock(e).get("k") == "For" and show(unblock(e)["iter"]) == "tokens":
+        if s["k"] == "Expr" and unblock(e).get("k") == "For" and tokens_id is not None and q.loop_over(unblock(e))[0] == tokens_id:
             loop_i = i
         if any(call_is(x, "parser::parse") for x in walk(e)):
             parse_i = i
@@ -59,7 +61,7 @@ def lemma_ident(rep, F, L):
     if loop_i is None:
         return
     loop = unblock(stmts[loop_i]["e"])
-    tok_id = loop["pat"].get("id")
+    tok_id = strip_ref(q.loop_over(loop)[1]).get("id")
     # the check itself
     found = False
     for n in walk(loop["body"]):
@@ -75,26 +77,21 @@ def lemma_ident(rep, F, L):
                             found = bool(rets)
     chk(rep, L, "L-IDENT", found, "L-IDENT/unknown-rejected", loop["sp"], "an Identifier token that is not a key of `identifiers` makes loading fail", "")
     # skip discipline: only after a Modifier two tokens back, and the index advances exactly once per iteration
-    lb = unblock(loop["body"])
-    conts = []
-    for blk in walk(loop["body"]):
-        if blk.get("k") == "Block":
-            st = blk["stmts"]
-            for i, s in enumerate(st):
-                if s["k"] == "Expr" and peel(s["e"]).get("k") == "Continue":
-                    prev = st[i - 1]["e"] if i > 0 and st[i - 1]["k"] == "Expr" else None
-                    conts.append(prev is not None and show(prev) == "i AddAssign 1")
-            if blk.get("expr") and peel(blk["expr"]).get("k") == "Continue":
-                prev = st[-1]["e"] if st and st[-1]["k"] == "Expr" else None
-                conts.append(prev is not None and show(prev) == "i AddAssign 1")
-    last = lb["stmts"][-1] if lb.get("k") == "Block" and lb["stmts"] and not lb.get("expr") else None
-    oklast = last is not None and last["k"] == "Expr" and show(last["e"]) == "i AddAssign 1"
-    nmods = len([x for x in walk(body) if x.get("k") in ("Assign", "AssignOp") and show(x["lhs"]) == "i"])
-    chk(rep, L, "L-IDENT", bool(conts) and all(conts) and oklast and nmods == len(conts) + 1, "L-IDENT/index-in-step", loop["sp"],
-        "the position counter advances exactly once on every path through the loop body (so tokens[i-2] is the token two back)", "continues ok: %s, tail ok: %s, writes: %d" % (conts, oklast, nmods))
-    skips = [n for n in walk(loop["body"]) if n.get("k") == "If" and peel(n["cond"]).get("k") == "LetCond" and "Index::index(tokens, (i Sub 2))" in show(peel(n["cond"])["arg"])]
+    ctr = q.counter_of(body, loop, exact=True)
+    chk(rep, L, "L-IDENT", ctr is not None, "L-IDENT/index-in-step", loop["sp"],
+        "the position counter advances exactly once on every path through the loop body (so tokens[i-2] is the token two back)", str(ctr))
+
+    def two_back(e):
+        for x in walk(e):
+            if x.get("k") == "Call" and call_is(x, "Index::index") and len(x["args"]) == 2 and q.var_id(x["args"][0]) == tokens_id:
+                ix = peel(x["args"][1])
+                if ctr and ix.get("k") == "Binary" and ix["op"] == "Sub" and q.var_id(ix["lhs"]) == ctr["id"] and lit(ix["rhs"]) == ("i", 2):
+                    return True
+        return False
+    skips = [n for n in walk(loop["body"]) if n.get("k") == "If" and peel(n["cond"]).get("k") == "LetCond" and two_back(peel(n["cond"])["arg"])]
     okskip = len(skips) == 1 and variant_of(peel(skips[0]["cond"])["pat"]) == ("Token", "Modifier")
-    chk(rep, L, "L-IDENT", okskip and len(conts) == 1, "L-IDENT/skip-only-cast-fields", loop["sp"], "a token is exempt only when the token two places back is a cast/not modifier (its operand is a field name)", "; ".join(pat_str(peel(s["cond"])["pat"]) for s in skips))
+    nconts = ctr["continues"] if ctr else -1
+    chk(rep, L, "L-IDENT", okskip and nconts == 1 and len([x for x in walk(skips[0]["then"]) if x.get("k") == "Continue"]) == 1, "L-IDENT/skip-only-cast-fields", loop["sp"], "a token is exempt only when the token two places back is a cast/not modifier (its operand is a field name)", "; ".join(pat_str(peel(s["cond"])["pat"]) for s in skips))
     # (ii) Identifier nodes are built only by parse_nud
     where = {}
     for name, f in F.fns.items():
@@ -203,18 +200,18 @@ def lemma_shape(rep, F, L):
                     chk(rep, L, "L-SHAPE", False, "L-SHAPE/led-wildcard", a["sp"], "no wildcard arm lets an operator through unchecked", pat_str(a["pat"]))
                     continue
                 covered |= syms
-                filters = [x for x in walk(a["body"]) if x.get("k") == "Match" and any(_is_wild(y["pat"]) and any(r.get("k") == "Return" for r in walk(y["body"])) for y in x["arms"])]
+                filters = q.filters(a["body"])
                 if syms <= {"And", "Or"}:
                     conds = [show(x["cond"]) for x in walk(a["body"]) if x.get("k") == "If" and any(r.get("k") == "Return" and facts.adt_is(peel(r["value"]), "Result", "Err") for r in walk(x["then"]))]
                     okk = "Not(Expression::is_solvable(left))" in conds and "Not(Expression::is_solvable(right))" in conds
                     chk(rep, L, "L-SHAPE", okk, "L-SHAPE/led/and-or", a["sp"], "operands of and/or must both be predicates (is_solvable), else Err", str(conds))
                 else:
-                    scr = [show(x["scrut"]) for x in filters]
+                    scr = [show(x) for x, _, _ in filters]
                     allowed_ok = True
-                    for x in filters:
-                        if show(x["scrut"]) in ("left", "right"):
-                            kinds = {variant_of(p)[1] for y in x["arms"] for p in or_pats(y["pat"]) if variant_of(p)}
-                            allowed_ok = allowed_ok and kinds <= OPERAND
+                    for x, pats, _ in filters:
+                        if show(x) in ("left", "right"):
+                            kinds = {variant_of(p)[1] for y in pats for p in or_pats(y) if variant_of(p)}
+                            allowed_ok = allowed_ok and kinds <= OPERAND and all(variant_of(p) for y in pats for p in or_pats(y))
                     okk = "left" in scr and "right" in scr and "(left, right)" in scr and allowed_ok
                     chk(rep, L, "L-SHAPE", okk, "L-SHAPE/led/" + "-".join(sorted(syms))[:40], a["sp"], "comparison operands are filtered to operand kinds and to the typed pairs, else Err", str(scr))
             chk(rep, L, "L-SHAPE", covered == {"And", "Or", "Equal", "GreaterThan", "GreaterThanOrEqual", "LessThan", "LessThanOrEqual"}, "L-SHAPE/led-covers-all", sm[0]["sp"], "every operator symbol has a checked arm", str(sorted(covered)))
@@ -225,11 +222,10 @@ def lemma_shape(rep, F, L):
         negs = [n for n in walk(pn.body) if n.get("k") == "Adt" and n["adt"] == "parser::Expression" and n["variant"] == "Negate"]
         okn = False
         det = ""
-        for n, path in walk_with_path(pn.body):
-            if n.get("k") == "Match" and show(n["scrut"]) == "right":
-                kinds = {variant_of(p)[1] for y in n["arms"] for p in or_pats(y["pat"]) if variant_of(p)}
-                wild_err = any(strip_ref(y["pat"]).get("k") == "Wild" and any(r.get("k") == "Return" for r in walk(y["body"])) for y in n["arms"])
-                okn = kinds <= PRED | {"Boolean"} and wild_err
+        for x, pats, _ in q.filters(pn.body):
+            if show(x) == "right":
+                kinds = {variant_of(p)[1] for y in pats for p in or_pats(y) if variant_of(p)}
+                okn = kinds <= PRED | {"Boolean"} and all(variant_of(p) for y in pats for p in or_pats(y))
                 det = str(sorted(kinds))
         chk(rep, L, "L-SHAPE", okn and len(negs) == 1, "L-SHAPE/not-operand", pn.sp, "`not` accepts only predicate operands, else Err", det)
     # group symbols
@@ -282,6 +278,17 @@ def lemma_shape(rep, F, L):
                         continue
                     okv = False
         chk(rep, L, "L-SHAPE", okv, "L-SHAPE/mapping-entry-value", pm.sp, "every mapping entry becomes a predicate node (or a member of `group`)", "")
+
+
+def walk_pat(p):
+    """a pattern and all its sub-patterns"""
+    p0 = strip_ref(p)
+    yield p0
+    for s in p0.get("sub") or []:
+        if isinstance(s, dict) and "p" in s:
+            yield from walk_pat(s["p"])
+    for s in p0.get("pats") or []:
+        yield from walk_pat(s)
 
 
 def _is_wild(p):
@@ -469,11 +476,24 @@ def lemma_matrix(rep, F, L):
             rep.lost("L-MATRIX", "L-MATRIX/anchor/" + fname, fname)
             L.ok["L-MATRIX"] = False
             continue
-        s = show(f.body)
-        ok = "let $size = <T, A>::len(columns); let $cache = <T>::with_capacity(size); for _ in Range::Range{start: 0, end: size} {<T, A>::push(cache, Option::None)}" in s
-        chk(rep, L, "L-MATRIX", ok, "L-MATRIX/cache-size/" + fname, f.sp, "cache is created with exactly columns.len() empty slots", "")
-        others = [show(x)[:60] for x in walk(f.body) if call_is(x, "::push") and show(x["args"][0]) == "cache"]
-        chk(rep, L, "L-MATRIX", len(others) == 1, "L-MATRIX/cache-only-grows-at-init/" + fname, f.sp, "no other push to cache", str(others))
+        # the vector handed to Cache(&..) has, by construction, as many slots as the Matrix node has columns, and is afterwards
+        # only assigned element-wise
+        cs = [n for n in walk(f.body) if n.get("k") == "Adt" and n["adt"].endswith("solver::Cache")]
+        cids = {q.base_var(c["fields"][0]["e"]) for c in cs}
+        colids = set()
+        for pat in q.all_patterns(f.body):
+            for p in or_pats(pat):
+                for pp in walk_pat(p):
+                    if variant_of(pp) and variant_of(pp)[1] == "Matrix" and variant_of(pp)[0] == "Expression":
+                        b = strip_ref(subpat(pp, 0))
+                        if b is not None and b.get("k") == "Bind":
+                            colids.add(b["id"])
+        ln = q.sym_len(f.body, list(cids)[0]) if len(cids) == 1 and None not in cids else None
+        ok = ln is not None and ln[0] == "len" and ln[1] in colids
+        elem = show(ln[2]) if ln else "-"
+        ln = ln[:2] if ln else None
+        chk(rep, L, "L-MATRIX", ok, "L-MATRIX/cache-size/" + fname, f.sp, "cache is created with exactly columns.len() slots and never grows or shrinks afterwards", "len=%s columns=%s caches=%s" % (ln, sorted(colids), sorted(map(str, cids))))
+        chk(rep, L, "L-MATRIX", elem == "Option::None", "L-MATRIX/cache-only-grows-at-init/" + fname, f.sp, "the slots start empty (None)", elem)
         rows = [n for n in walk(f.body) if n.get("k") == "For" and show(n["iter"]) == "Iterator::enumerate(<impl [T]>::iter(Deref::deref(row)))" and pat_str(n["pat"]) == "($i, $expression)"]
         want = 2 if fname == "solver::solve_expression" else 1
         chk(rep, L, "L-MATRIX", len(rows) == want, "L-MATRIX/row-index/" + fname, f.sp, "cache/columns are indexed by the row's own enumerate index", str(len(rows)))
@@ -561,19 +581,53 @@ def make_rules(F, L):
     def d_aho(F, s):
         if not L.ok["L-LOCKSTEP"]:
             return None
-        sh = show(s.node)
-        if s.fn == "solver::search" and sh == "Index::index(m, Match::pattern(i))":
-            return ("D-AHO", "pattern ids are below the number of needles == context length (lemma L-LOCKSTEP)")
-        if s.fn == "solver::slow_aho":
-            tf = [show(x) for x in q.true_facts(q.context(s.path, s.node))]
-            if sh == "Index::index(m, p)":
+        if s.fn not in ("solver::search", "solver::slow_aho"):
+            return None
+        import c07
+        f = F.fns[s.fn]
+        root = f.body
+        pairs = c07.aho_pairs(f, root)
+        ctx = q.context(s.path, s.node)
+        n = s.node
+
+        def hit_of(e):
+            """e is `h.pattern()` (possibly through a let) for the loop variable h of `for h in A.find_overlapping_iter(..)`: -> id of A"""
+            e = q.resolve(root, e)
+            if not call_is(e, "Match::pattern"):
+                return None
+            h = q.var_id(e["args"][0])
+            for c in ctx:
+                if c[0] == "for" and strip_ref(c[1]).get("k") == "Bind" and strip_ref(c[1])["id"] == h and call_is(peel(c[2]), "find_overlapping_iter"):
+                    return q.base_var(peel(c[2])["args"][0], root)
+            return None
+
+        def small(ctxvec):
+            """a true fact `len(ctxvec) < 64` (possibly through a let)"""
+            for t in q.true_facts(ctx):
+                t = peel(t)
+                if t.get("k") == "Binary" and t["op"] == "Lt" and lit(t["rhs"]) and lit(t["rhs"])[1] == 64:
+                    l = q.resolve(root, t["lhs"])
+                    if call_is(l, "::len") and (ctxvec is None or q.base_var(l["args"][0], root) == ctxvec):
+                        return q.base_var(l["args"][0], root)
+            return None
+        if n.get("k") == "Call" and call_is(n, "Index::index") and len(n["args"]) == 2:
+            a = hit_of(n["args"][1])
+            if a is not None and (a, q.base_var(n["args"][0], root)) in pairs:
                 return ("D-AHO", "pattern ids are below the number of needles == context length (lemma L-LOCKSTEP)")
-            if sh == "(1 Shl PatternID::as_u64(p))" and "(len Lt 64)" in tf:
-                return ("D-AHO", "p < len < 64 (len = context length, lemma L-LOCKSTEP)")
-            if sh == "(map Shr i)" and "(len Lt 64)" in tf:
-                fors = [e for e in q.context(s.path, s.node) if e[0] == "for" and show(e[2]) == "Range::Range{start: 0, end: len}"]
-                if fors:
-                    return ("D-AHO", "i in 0..len and len < 64")
+        if n.get("k") == "Binary" and n["op"] == "Shl":
+            r = q.resolve(root, n["rhs"])
+            if call_is(r, "PatternID::as_u64"):
+                a = hit_of(r["args"][0])
+                cv = [m for (x, m) in pairs if x == a]
+                if a is not None and cv and small(cv[0]) is not None:
+                    return ("D-AHO", "p < len < 64 (len = context length, lemma L-LOCKSTEP)")
+        if n.get("k") == "Binary" and n["op"] == "Shr":
+            iv = q.var_id(n["rhs"])
+            for c in ctx:
+                if c[0] == "for" and strip_ref(c[1]).get("k") == "Bind" and strip_ref(c[1])["id"] == iv:
+                    end = q._range_upto(c[2], root)
+                    if end is not None and call_is(end, "::len") and small(q.base_var(end["args"][0], root)) is not None:
+                        return ("D-AHO", "i in 0..len and len < 64")
         return None
 
     return (d_ident, d_grammar, d_cmp_total, d_matrix, d_aho)
